@@ -146,3 +146,111 @@ Proof.
   intros [_ [_ Herr]] Hex. destruct (Herr Hex) as (r & e0 & Hin & Hc & [= <-] & ->). eauto.
 Qed.
 End Par.
+
+(* ------------------------------------------------------------------------------------------------
+   The same step for ANY population type (`P: Population + FromIterator<Individual>`): the population
+   knows its size, and the children are collected into a new population.  For a set-typed population
+   `collect` merges equal children, so the size can change from one step to the next - and each step
+   applies the child maker as many times as the population has members AT THAT STEP. *)
+Section GenColl.
+Context {P Ind R E : Type} (size : P -> nat) (collect : list Ind -> P) (cm : op R P Ind E).
+
+Definition serial_next_c (pop : P) (r : R) : (unit + E) * P * R :=
+  match repeat_ (size pop) cm pop r with
+  | (inl children, r') => (inl tt, collect children, r')
+  | (inr e, r') => (inr e, pop, r')
+  end.
+
+(* success: exactly size-many children, all made from the old population, collected *)
+Theorem serial_c_success pop r pop' r' :
+  serial_next_c pop r = (inl tt, pop', r') ->
+  exists children, repeat_ (size pop) cm pop r = (inl children, r') /\ length children = size pop /\ pop' = collect children.
+Proof.
+  unfold serial_next_c. destruct (repeat_ (size pop) cm pop r) as [[cs|e] r1] eqn:Hr; intros H; inversion H; subst.
+  exists cs. split; [reflexivity|]. split; [eapply repeat_length; eassumption|reflexivity].
+Qed.
+(* failure: the population is what it was and the error is a child maker's *)
+Theorem serial_c_atomic pop r e pop' r' :
+  serial_next_c pop r = (inr e, pop', r') -> pop' = pop /\ repeat_ (size pop) cm pop r = (inr e, r').
+Proof.
+  unfold serial_next_c. destruct (repeat_ (size pop) cm pop r) as [[cs|e0] r1]; intros H; inversion H; subst. split; reflexivity.
+Qed.
+
+(* several steps of one Generation value: the populations after each successful step (stepping stops at a failure) *)
+Fixpoint steps_c (k : nat) (pop : P) (r : R) : list P :=
+  match k with
+  | O => []
+  | S k' => match serial_next_c pop r with
+            | (inl _, pop', r') => pop' :: steps_c k' pop' r'
+            | (inr _, _, _) => []
+            end
+  end.
+
+(* EVERY step follows the size the population has at that step - not the size it had when the Generation
+   value was created, nor the size some earlier step saw *)
+Theorem steps_follow_current_size k pop r i p_i p_next :
+  nth_error (pop :: steps_c k pop r) i = Some p_i -> nth_error (pop :: steps_c k pop r) (S i) = Some p_next ->
+  exists children, length children = size p_i /\ p_next = collect children.
+Proof.
+  revert pop r i. induction k as [|k IH]; intros pop r i; cbn [steps_c].
+  - destruct i as [|[|i]]; cbn; discriminate.
+  - destruct (serial_next_c pop r) as [[[u|e] pop1] r1] eqn:Hs.
+    + destruct i as [|i]; cbn [nth_error].
+      * intros [= <-] [= <-]. destruct u. destruct (serial_c_success _ _ _ _ Hs) as (cs & _ & Hl & Hp). eauto.
+      * intros H1 H2. exact (IH pop1 r1 i H1 H2).
+    + destruct i as [|[|i]]; cbn; discriminate.
+Qed.
+End GenColl.
+
+(* a Vec population is the instance size = length, collect = identity: the first section's serial_next *)
+Lemma serial_next_c_list {Ind R E} (cm : op R (list Ind) Ind E) pop r :
+  serial_next_c (@length Ind) (fun l => l) cm pop r =
+  match serial_next cm pop r with (inl _, pop', r') => (inl tt, pop', r') | (inr e, pop', r') => (inr e, pop', r') end.
+Proof. unfold serial_next_c, serial_next. destruct (repeat_ (length pop) cm pop r) as [[cs|e] r1]; reflexivity. Qed.
+
+(* an ordered set of integers as population (BTreeSet<i64>): what it keeps of the children it is handed *)
+From Coq Require Import ZArith Sorted.
+Fixpoint ins (x : Z) (l : list Z) : list Z :=
+  match l with [] => [x] | y :: r => if (x <? y)%Z then x :: l else if (x =? y)%Z then l else y :: ins x r end.
+Definition sort_dedup (l : list Z) : list Z := fold_right ins [] l.
+
+Lemma ins_In x y l : In y (ins x l) <-> y = x \/ In y l.
+Proof.
+  induction l as [|z l IH]; cbn [ins].
+  - cbn. intuition.
+  - destruct (Z.ltb_spec x z) as [Hlt|Hge]; [cbn; intuition|].
+    destruct (Z.eqb_spec x z) as [->|Hne]; [cbn; intuition|].
+    cbn [In]. rewrite IH. intuition.
+Qed.
+Lemma ins_length x l : length (ins x l) <= S (length l).
+Proof.
+  induction l as [|z l IH]; cbn [ins]; [cbn; lia|].
+  destruct (x <? z)%Z; [cbn; lia|]. destruct (x =? z)%Z; cbn; lia.
+Qed.
+Lemma ins_sorted x l : StronglySorted Z.lt l -> StronglySorted Z.lt (ins x l).
+Proof.
+  induction l as [|z l IH]; cbn [ins]; intros Hs.
+  - constructor; constructor.
+  - inversion Hs as [|? ? Hs' Hall]; subst.
+    destruct (Z.ltb_spec x z) as [Hlt|Hge].
+    + constructor; [exact Hs|]. constructor; [exact Hlt|]. rewrite Forall_forall in *. intros y Hy. specialize (Hall y Hy). lia.
+    + destruct (Z.eqb_spec x z) as [->|Hne]; [exact Hs|].
+      constructor; [exact (IH Hs')|]. rewrite Forall_forall in *. intros y Hy. apply ins_In in Hy. destruct Hy as [->|Hy]; [lia|auto].
+Qed.
+(* the set keeps exactly the distinct children, in order; it never has more members than children were made *)
+Theorem sort_dedup_spec l :
+  (forall y, In y (sort_dedup l) <-> In y l) /\ StronglySorted Z.lt (sort_dedup l) /\ length (sort_dedup l) <= length l.
+Proof.
+  induction l as [|x l (IHin & IHs & IHl)]; cbn [sort_dedup fold_right].
+  - repeat split; [intros []|intros []|constructor|cbn; lia].
+  - fold (sort_dedup l). repeat split.
+    + rewrite ins_In, IHin. cbn. intuition.
+    + rewrite ins_In, IHin. cbn. intuition.
+    + apply ins_sorted, IHs.
+    + pose proof (ins_length x (sort_dedup l)). cbn [length]. lia.
+Qed.
+(* colliding children make the population shrink: the next step then makes fewer children *)
+Example set_population_shrinks :
+  let cm : op nat (list Z) Z unit := fun pop r => (inl (Z.of_nat (r mod 2)), S r) in
+  steps_c (@length Z) sort_dedup cm 3 [10; 13; 16; 19]%Z 0 = [[0; 1]; [0; 1]; [0; 1]]%Z.
+Proof. reflexivity. Qed.
